@@ -38,10 +38,14 @@ SCOPE = {
 }
 EXHAUSTIVE = {"quick": False, "thorough": False}
 RULE = ("case = (language recipe, model recipe, kind): kind 'eval' calls the real evaluator on each listed expression "
-        "from every subset of the assets whose type fits the expression's source type (supersets of a start set on "
-        "which an expression did not terminate are skipped); kind 'graph' generates the attack graph of a language "
-        "whose steps carry the expressions. A case is non-trivial when the reference reaches at least one asset; "
-        "distinct = distinct (kind, language, model) recipes among the non-trivial ones")
+        "from every subset of the assets whose type fits the expression's source type (once an expression did not "
+        "terminate from a start set, its supersets and, within the same case, the other expressions with a closure "
+        "over the same field are skipped); kind 'graph' generates the attack graph of a language whose steps carry the "
+        "expressions (expressions with a closure are kept in languages of their own) and compares every node's "
+        "child set, and the parent lists as multisets. A divergence is attributed to the innermost sub-expression "
+        "on which the real evaluator, called directly on the reference input, leaves the reference result. A case "
+        "is non-trivial when the reference reaches at least one asset; distinct = distinct (kind, language, model) "
+        "recipes among the non-trivial ones")
 ASSUMPTIONS = [
     "reference Sem: field navigation over the recipe's link list, set operators on the operand results from the same "
     "start set, subtype filter with the reflexive-transitive subtype relation, variable = nearest declaration up the "
@@ -50,6 +54,9 @@ ASSUMPTIONS = [
     "of 1 / 2 / 3 / 4 assets) of Model.get_associated_assets_by_field_name per evaluation or generation (counted by "
     "a delegating wrapper on the model instance), 30 s wall alarm; exceeding any of them is reported under "
     "C01.terminates",
+    "the generated asset / association classes (LanguageClassesFactory) are cached per worker process, keyed by the "
+    "asset types, associations and defenses of the language; LanguageGraph, Model and AttackGraph are built afresh "
+    "for every case",
     "generated languages are well-typed by a typer stricter than the library's (least common ancestor for set "
     "operators, source type <= target type for transitive); LanguageGraph() accepting them is relied on",
 ]
@@ -102,6 +109,8 @@ def family(sname, tier, seed):
         for (e, _ty) in G.enum_exprs(L, T, 2):
             small.append((T, e))
     deep.extend(CURATED.get(sname, []))
+    for (T, e) in deep:
+        assert L.type_of(e, T) is not None, ("curated expression is ill-typed", sname, T, e)
     rnd = random.Random("%s/%s/%s" % (seed, sname, tier))
     count, dmax = (150, 3) if tier == "quick" else (2500, 4)
     seen = {json.dumps(x) for x in small + deep}
